@@ -297,6 +297,14 @@ func (x *Exec) frontBuiltin(env *SpecEnv, st *State, name string, args []TV) (TV
 			return TV{VScalar{IntLit(int64(cnt))}, intT}, true
 		}
 		return TV{}, false
+	case "dyn":
+		// dyn(i): the dynamic value of an interface value whose dynamic type is known on this path
+		if len(args) == 1 {
+			if iv, ok := x.force(st, args[0].V).(VIface); ok && iv.Dyn != nil {
+				return TV{iv.Val, iv.Dyn}, true
+			}
+		}
+		return TV{}, false
 	case "selects":
 		// selects(ch): the select statement at hand (site select) has a case on channel ch
 		if len(args) == 1 && x.curSelect != nil && len(st.frames) > 0 {
@@ -704,14 +712,43 @@ func init() {
 			ct := c.ret.Type().(*types.Tuple).At(0).Type()
 			fail := x.sym.Fresh("cursor.rejected", SBool)
 			ts, fs := x.fork(st, fail, "cursor rejected")
+			// recorded as "newcursor" (results: cursor, error) so that a contract can name the decoded cursor
+			rec := func(s *State, res []Value) {
+				tup := c.ret.Type().(*types.Tuple)
+				as := []TV{{nil, tup.At(0).Type()}, {nil, tup.At(1).Type()}}
+				s.rec = append(append([]recordedCall(nil), s.rec...), recordedCall{Name: "newcursor", Args: as, Results: res})
+			}
 			if ts != nil {
-				x.completeCall(ts, c, VTuple{[]Value{VPtr{Nil: TTrue, Typ: ct}, x.freshErr(ts, "cursor.err", TFalse)}})
+				res := []Value{VPtr{Nil: TTrue, Typ: ct}, x.freshErr(ts, "cursor.err", TFalse)}
+				rec(ts, res)
+				x.completeCall(ts, c, VTuple{res})
 			}
 			if fs != nil {
 				x.callCounter++
 				cur := x.symbolic(fs, ct, fmt.Sprintf("cursor!%d", x.callCounter)).(VPtr)
 				fs.assume(Not(cur.Nil))
-				x.completeCall(fs, c, VTuple{[]Value{cur, VIface{Nil: TTrue, Typ: errType()}}})
+				res := []Value{cur, VIface{Nil: TTrue, Typ: errType()}}
+				rec(fs, res)
+				// what the decoded request carried when NewCursor returned, field by field, recorded as
+				// "cursornext" (Id, Tags, Limit, SortId): a later assignment to a field of Next does not change it
+				if pt, ok := ct.Underlying().(*types.Pointer); ok && cur.Loc != nil {
+					if nv, nt := x.fieldOf(fs, cur, pt.Elem(), "Next"); nv != nil {
+						if np, ok := nv.(VPtr); ok && np.Loc != nil {
+							if npt, ok := nt.Underlying().(*types.Pointer); ok {
+								var as []TV
+								var vals []Value
+								for _, fn := range []string{"Id", "Tags", "Limit", "SortId"} {
+									if fv, ft := x.fieldOf(fs, np, npt.Elem(), fn); fv != nil {
+										as = append(as, TV{nil, ft})
+										vals = append(vals, fv)
+									}
+								}
+								fs.rec = append(append([]recordedCall(nil), fs.rec...), recordedCall{Name: "cursornext", Args: as, Results: vals})
+							}
+						}
+					}
+				}
+				x.completeCall(fs, c, VTuple{res})
 			}
 			return true
 		})
